@@ -361,6 +361,89 @@ def _config_histories(ctx):
         pimpl.HttpServerThreadBase = saved
 
 
+def _subscribe_negotiation(ctx):
+    """The coding of notifications is negotiated by the Accept-Encoding header of the Subscribe request: for the sync and
+    the async subscription manager, a Subscribe with each header is sent to the real provider; the notification client the
+    provider then creates for that subscriber is asked (real SoapClient request logic, same arguments) which coding it uses."""
+    import types
+    from mcx import world
+    from mcx.checks import c08
+    from sdc11073.httpserver.compression import CompressionHandler
+    from sdc11073.pysoap.soapclient import SoapClient
+    from sdc11073 import loghelper
+    world.install()
+    all_enc = list(CompressionHandler.available_encodings)
+    headers = [None, 'gzip', 'gzip;q=0', 'gzip;q=0, x-lz4;q=0.5', 'gzip;q=0,x-lz4;q=0,*;q=0', 'identity', '*;q=0', 'x-lz4, gzip;q=0.0',
+               'gzip ; q=0', 'br, gzip;q=0.1']
+    for mgr_name in ('path-sync', 'path-async', 'ref-async'):
+        for header in headers:
+            ctx.add('states')
+            ctx.transition(2)
+            ctx.evals()
+            ctx.trace()
+            sim = c08.Sim(mgr_name)
+            try:
+                sim.p.set_used_compression(*all_enc)
+                sub = sim._mk_subscription('A')
+                client = sim._soap_client(sim.hosted_address)
+                orig = client._headers
+
+                def hdrs(orig=orig, header=header):
+                    h = orig()
+                    del h['Accept-Encoding']
+                    if header is not None:
+                        h['Accept-Encoding'] = header
+                    return h
+                client._headers = hdrs
+                n_clients = len(sim.w.wire.clients)
+                try:
+                    sub.subscribe(10)
+                except Exception as ex:  # noqa: BLE001
+                    ctx.outcome(f'subscribe-negotiation:{mgr_name}:subscribe-raised-{type(ex).__name__}')
+                    continue
+                if not sub.is_subscribed:
+                    ctx.outcome(f'subscribe-negotiation:{mgr_name}:not-accepted')
+                    continue
+                from mcx import alphabet as A
+                A.apply(sim.p, 'metric(N1,1)')
+                cfg = c08.SUBSCRIBERS['A']
+                made = [c for c in sim.w.wire.clients[n_clients:] if c.netloc == f'{cfg["ip"]}:{cfg["port"]}']
+                if not made:
+                    ctx.outcome(f'subscribe-negotiation:{mgr_name}:no-notification-client')
+                    continue
+                lc = made[0]
+                real = SoapClient(lc.netloc, 1, loghelper.get_logger_adapter('verif.c17'), None, None, None,
+                                  supported_encodings=lc.supported_encodings, request_encodings=lc.request_encodings)
+                sent = {}
+
+                class Conn:
+                    sock = object()
+
+                    def request(self, method, path, body=None, headers=None):  # noqa: ARG002
+                        sent['headers'] = dict(headers)
+
+                    def getresponse(self):
+                        return _resp(b'HTTP/1.1 200 OK\r\nContent-Length: 0\r\n\r\n')
+
+                    def close(self):
+                        pass
+                real._http_connection = Conn()
+                real._send_soap_request('/x', b'<n>' + b'y' * 64 + b'</n>', 'verif')
+                chosen = sent['headers'].get('Content-Encoding')
+                ctx.outcome(f'subscribe-negotiation:{mgr_name}:coding={chosen}')
+                if chosen is not None:
+                    members = [m.strip() for m in (header or '').split(',') if m.strip()]
+                    parsed = []
+                    for m in members:
+                        tok, _, q = m.partition(';')
+                        parsed.append((tok.strip(), _qval(q.strip()) if q.strip() else 1.0))
+                    if not acceptable(parsed, chosen):
+                        ctx.violation(f'negotiation/notification-after-subscribe/not-acceptable-to-peer/{mgr_name}/{header}',
+                                      {'accept_encoding_of_subscribe': header, 'chosen': chosen}, case={'kind': 'subscribe-negotiation'})
+            finally:
+                sim.w.close()
+
+
 # ------------------------------------------------------------------ negotiation
 TOKENS = ['gzip', 'lz4', 'x-lz4', 'identity', '*', 'br']
 QS = ['', ';q=1', ';q=0.5', ';q=0', ';q=0.0', ';q=0.000', '; q=0', ';q = 0', ' ; q =0 ', ';Q=0', '; q = 0.5']
@@ -642,6 +725,7 @@ def run(ctx):
     ctx.pmap(_coding_chunk, [cod[i:i + n] for i in range(0, len(cod), n)], chunksize=1)
     _corruption(ctx)
     _config_histories(ctx)
+    _subscribe_negotiation(ctx)
     heads = negotiation_headers(ctx.quick)
     heads.append(((('gzip', ''),), ','))
     n = max(1, len(heads) // 64)
@@ -679,6 +763,8 @@ def replay(ctx, case):
     elif kind == 'coding':
         body = bytes.fromhex(case['body']) if isinstance(case['body'], str) else (bytes(range(256)) * 30000)[:case['body']]
         _coding_chunk(ctx, [body])
+    elif kind == 'subscribe-negotiation':
+        _subscribe_negotiation(ctx)
     elif kind == 'config':
         _config_histories(ctx)
     elif kind == 'corrupt':
